@@ -43,9 +43,25 @@ def sub_table(decoder):
 _SD, _CD = ServerDecoder(), ClientDecoder()
 
 
+def _diag_classes():
+    """sub-function code -> (request class, response class), taken from the classes of diag_message.py themselves
+    (NOT from the decoders' lookup tables, which are what the checks test)"""
+    req, resp = {}, {}
+    for name in dir(dm):
+        c = getattr(dm, name)
+        if isinstance(c, type) and isinstance(getattr(c, 'sub_function_code', None), int) and c.sub_function_code != 9999:
+            if issubclass(c, dm.DiagnosticStatusRequest) and name.endswith('Request'):
+                req.setdefault(c.sub_function_code, c)
+            elif issubclass(c, dm.DiagnosticStatusResponse) and name.endswith('Response'):
+                resp.setdefault(c.sub_function_code, c)
+    return req, resp
+
+
+_DIAG_REQ, _DIAG_RESP = _diag_classes()
+
+
 def diag_class(sub, request):
-    tab = sub_table(_SD if request else _CD).get(8, {})
-    return tab.get(sub, dm.DiagnosticStatusRequest if request else dm.DiagnosticStatusResponse)
+    return (_DIAG_REQ if request else _DIAG_RESP).get(sub, dm.DiagnosticStatusRequest if request else dm.DiagnosticStatusResponse)
 
 
 def msg_from_json(m):
@@ -330,3 +346,31 @@ RESP_TYPES = ['readCoils', 'readDiscrete', 'readHolding', 'readInput', 'writeCoi
               'writeRegisters', 'maskWrite', 'readWrite', 'diag', 'readExceptionStatus', 'getCommEventCounter',
               'getCommEventLog', 'reportSlaveId', 'readFileRecord', 'writeFileRecord', 'readFifo', 'readDeviceInfo',
               'exception']
+
+
+def max_size_msgs(rng, direction):
+    """messages at and just below the 253-byte PDU limit (the largest legal frames of every framing)"""
+    def rec(nwords):
+        data = bytes_(rng, 2 * nwords)
+        return {'rt': 6, 'fn': u16(rng), 'rn': u16(rng), 'data': data, 'rl': nwords, 'resp_len': len(data) + 1}
+    out = []
+    for nwords in (120, 121, 122):                      # PDU 249, 251, 253
+        out.append({'t': 'writeFileRecord', 'records': [rec(nwords)]})
+    out.append({'t': 'writeFileRecord', 'records': [rec(60), rec(55)]})     # 2 + 7+120 + 7+110 = 246
+    if direction == 'req':
+        out.append({'t': 'writeRegisters', 'address': u16(rng), 'count': 123, 'byte_count': 246,
+                    'values': [u16(rng) for _ in range(123)]})
+        out.append({'t': 'writeCoils', 'address': u16(rng), 'count': 1968, 'byte_count': 246,
+                    'values': [rng.random() < 0.5 for _ in range(1968)]})
+        out.append({'t': 'readWrite', 'read_address': u16(rng), 'read_count': 125, 'write_address': u16(rng), 'write_count': 121,
+                    'write_byte_count': 242, 'write_registers': [u16(rng) for _ in range(121)]})
+    else:
+        for n in (248, 249, 250):                       # PDU 251, 252, 253
+            out.append({'t': 'reportSlaveId', 'identifier': bytes_(rng, n), 'status': True})
+        out.append({'t': 'readHolding', 'registers': [u16(rng) for _ in range(125)]})
+        out.append({'t': 'readInput', 'registers': [u16(rng) for _ in range(125)]})
+        out.append({'t': 'readCoils', 'bits': [int(rng.random() < 0.5) for _ in range(2000)]})
+        out.append({'t': 'readWrite', 'registers': [u16(rng) for _ in range(125)]})
+        for n in (243, 244, 245):                       # PDU 251, 252, 253
+            out.append({'t': 'getCommEventLog', 'status': True, 'event_count': u16(rng), 'message_count': u16(rng), 'events': bytes_(rng, n)})
+    return out
